@@ -26,14 +26,33 @@ CHECKS = [
  trace("C12", "Answer-after-all-requested-transactions formula evaluated by TLC with request/supply bookkeeping per stored proposal on real runs including in-call view changes.", TV),
  trace("C13", "Silence formulas (no Broadcast, Sign, SetData) evaluated by TLC on every call of real watch-only nodes: non-validators and flagged validators in every rotation position.", TV),
 ]
-NOT_YET = ["C06", "C08", "C09", "C14", "C15", "C16", "C17", "C18", "C19", "C20"]
+def other(pid, cat, text, technique, note, engine):
+    return {"property_id": pid, "quick_cmd": "./check %s --tier quick" % pid, "thorough_cmd": "./check %s --tier thorough" % pid,
+            "evidence_file": "evidence/%s.json" % pid, "replay_cmd_template": "./check %s --replay {path}" % pid, "engine": engine,
+            "level_claimed": {"category": cat, "text": text, "design_ref": "DESIGN.md section 6"}, "level_note": note, "technique": technique}
+CHECKS += [
+ trace("C08", "No-view-change / decided-in-view-0 / same-block / everybody-at-target formulas evaluated by TLC on fault-free synchronous virtual-time runs of real nodes with random delays, duplicates, a node that receives each round in any order, late Reset (next-height traffic arrives early), anti-MEV and dynamic block time on/off.", TV.replace("random asynchronous adversary cluster + open single-node environment", "virtual-time synchronous cluster driver")),
+ trace("C09", "Progress (every live validator two heights beyond the fault, bounded wait) and deciding-view <= number of silent validators evaluated by TLC on virtual-time runs with silent / watch-only validators, partitions that heal (time- and broadcast-triggered), amnesia restarts within the fault budget, ledger sync for laggards.", TV.replace("random asynchronous adversary cluster + open single-node environment", "virtual-time fault-schedule cluster driver"), " Liveness is checked as bounded liveness: 200 block times per height for silent runs, 400 block times + 8 x partition length after healing."),
+ trace("C14", "Clock-shift formula (effects equal, absolute instants shifted by delta) evaluated by TLC on lock-step pairs of real single-node runs whose injected clocks differ by delta, and the round-trip estimate checked to move only by samples measured on the injected clock.", TV.replace("random asynchronous adversary cluster + open single-node environment", "paired open-environment runs at two clock epochs")),
+ trace("C15", "Proposal-well-formedness formula (timestamp = max(previous + increment, truncated clock) > previous; transactions = GetVerified result in order; constructor arguments = context = broadcast payload) evaluated by TLC on every own PrepareRequest of real primaries over a grid of clocks behind / equal / ahead / stepping back.", TV.replace("random asynchronous adversary cluster + open single-node environment", "proposal grid driver + adversarial drivers")),
+ trace("C16", "Minimum-gap, empty-only-after-maximum, prompt-proposal-on-new-transaction, no-idle-view-change and subscribe-only-if-configured formulas evaluated by TLC on fault-free virtual-time runs with MaxTimePerBlock set and transactions arriving at chosen offsets.", TV.replace("random asynchronous adversary cluster + open single-node environment", "virtual-time synchronous cluster driver with dynamic block time")),
+ other("C06", "exploration", "TLC checks the quorum/rotation theorems on the TLA+ definitions (spec/Quorum.tla) and checks one row per (N, height, view) produced by the real Context.F/M/GetPrimaryIndex against them; thorough = every N in 1..65535 (exhaustive over the validator-count domain).", "TLC as enumerator/oracle for a pure function: rows from the real code checked against spec/Quorum.tla; PrimaryOK evaluated on real traces", "Trusted: TLC, base-256 digit reduction for heights above 2^31 (TLC integers are 32 bit). Views sampled {0,1,2,3,7,255}, heights at 17 boundary values.", "tlc-rows"),
+ other("C17", "exploration", "The real simulation binary is run (own network namespace per configuration) and TLC checks its decision log against spec/SimApp.tla: gapless heights per node, agreement per height, at least (duration-4s)/5s heights.", "TLC validation of the real binary's log against spec/SimApp.tla", "Wall-clock run of 17 s (quick) / 27-62 s (thorough) per configuration; lower bound only.", "tlc-rows"),
+ other("C18", "exploration", "Seeded operation sequences on the real timer.Timer, stamped with the monotonic clock, validated by TLC against spec/BundledTimer.tla (never early: exact; delivered: within 500 ms; reports latest epoch; delivered once).", "TLC trace validation of timestamped real timer operations against spec/BundledTimer.tla", "Single-goroutine use; the upper bound uses a 500 ms tolerance so a loaded machine raises no alarm.", "tlc-rows"),
+ other("C19", "exploration", "Value-level clauses only: single-field mutation / codec / corrupted-input / recovery-rebuild / signature / Merkle rows computed with the real reference code and checked by TLC against the expectation table spec/PayloadAlgebra.tla. Three standing deviations are known findings (KF-3, KF-4, KF-5).", "TLC check of enumerated value-level rows against spec/PayloadAlgebra.tla", "A state-machine model says nothing about decoder robustness on arbitrary bytes or cryptographic soundness; those are only sampled (structured corruptions).", "tlc-rows"),
+ other("C20", "model_checking", "TLC explores the shipped TLA+ models of the working tree (SPECIFICATION Safety, RM = 0..3, MaxView = 1, shipped constraint) for the fault sets their ASSUME allows, checking the shipped invariants and independent restatements of them (fork, fault count, types). quick: base + anti-MEV models with good/faulty/dead node, three-staged model all good; thorough: all five models and fault sets, capped runs reported as bounded.", "TLC model checking of the shipped specifications themselves", "The artefact under test is a specification: traces_validated_against_impl is 0 by nature. F-8 (three-staged model with a faulty node) is a known finding.", "tlc-shipped-models"),
+]
+CHECKS.sort(key=lambda c: c["property_id"])
+NOT_YET = []
 head = subprocess.check_output("git -C /repo log --format=%h --grep='^verif:' -n 5", shell=True, text=True).split()
 m = {"version": 1,
      "setup_cmd": "true",
      "hooks": {"guard": "verif", "enable": "go build -tags verif (one add-only file /repo/verif_export.go: read-only VerifSnapshot accessor)",
                "baseline_off_cmd": "cd /repo && GOFLAGS=-mod=mod GOPROXY=off go test -vet=off -count=1 ./...",
                "source_commits": head, "add_only": True},
-     "engines": [{"name": "tlc-trace-validation", "path": "check", "serves_properties": [c["property_id"] for c in CHECKS],
+     "engines": [{"name": "tlc-rows", "path": "check", "serves_properties": ["C06", "C17", "C18", "C19"], "kind_free_text": "rows / logs produced by the real code, checked by TLC against small specifications (Quorum, SimApp, BundledTimer, PayloadAlgebra)"},
+                 {"name": "tlc-shipped-models", "path": "check", "serves_properties": ["C20"], "kind_free_text": "TLC on /repo/formal-models/*.tla"},
+                 {"name": "tlc-trace-validation", "path": "check", "serves_properties": [c["property_id"] for c in CHECKS if c["engine"] == "tlc-trace-validation"],
                   "kind_free_text": "Go harness records real runs as ndjson; TLC (spec/DbftTrace.tla + spec/DbftNode.tla) evaluates property formulas and conformance on them"}],
      "checks": CHECKS,
      "notes": "see DESIGN.md; known findings in known_findings.json; seeded mutants in seeded/",
